@@ -515,8 +515,15 @@ func (c *Compiler) mapKeyCode(typ *runtime.Type) (Code, error) {
 	}
 	switch typ.Kind() {
 	case reflect.Ptr:
-		return c.ptrCode(typ)
+		// a pointer is a valid key only when it is a TextMarshaler through what it points to
+		if typ.Implements(marshalTextType) {
+			return c.ptrCode(typ)
+		}
 	case reflect.String:
+		if typ == runtime.Type2RType(jsonNumberType) {
+			// in key position a json.Number is its text, quoted like any other string key
+			return c.stringCode(runtime.Type2RType(reflect.TypeOf("")), false)
+		}
 		return c.stringCode(typ, false)
 	case reflect.Int:
 		return c.intStringCode(typ)
